@@ -66,8 +66,29 @@ def run(ctx, replay_case):
                                            f"(emitted fields {emitted} bytes + consumed offending {skipped} bytes)",
                                    "replay": {**c.replay("S"), "remaining": rem, "emitted_bytes": emitted,
                                               "offending_bytes": skipped, "error": r}})
+    # the same accounting through the text front-ends (seed C13f: the hex front-end closed its byte generator when the error passed
+    # through it, so the remaining bytes it had not yet produced were lost): the error's remaining bytes are the suffix of the *carried*
+    # bytes — the block must be the one the binary decode gives (pull counts aside)
+    fsel = [i for i, b in enumerate(impl) if b[-1].startswith("R raised")]
+    fsel = fsel[:: max(1, len(fsel) // (300 if ctx.tier == "quick" else 4000))]
+    fops = []
+    for i in fsel:
+        c = faults[i]
+        fops.append(("DECFRONT", "S", c.tname, c.cc, c.enc, c.data.hex().encode(), "hex"))
+        fops.append(("DECFRONT", "S", c.tname, c.cc, c.enc, b" " + b" ".join(f"{x:02X}".encode() for x in c.data) + b"\n", "hex"))
+    fres = core.run_impl(fops)
+    nfront = 0
+    for k, fb in enumerate(fres):
+        i = fsel[k // 2]
+        if [ds.strip_pulls(l) for l in fb] != [ds.strip_pulls(l) for l in impl[i]]:
+            nfront += 1
+            if nfront <= 3:
+                ctx.violations.append({"kind": "concrete", "signature": "remaining:hex-front-end",
+                                       "what": "the same rejected input given as hex text: the error (or its remaining bytes) differs from the one the binary decode reports",
+                                       "replay": {**faults[i].replay("S"), "front_end": "hex", "text": fops[k][5].decode()[:300],
+                                                  "expected": impl[i][-1][:300], "observed": fb[-1][:300]}})
     ctx.stats.update({
-        "evaluations": len(faults), "distinct_nontrivial": len({(c.tname, c.cc, c.data) for c in faults}),
+        "evaluations": len(faults) + len(fops), "distinct_nontrivial": len({(c.tname, c.cc, c.data) for c in faults}),
         "rule": "fault enumeration over well-formed structures/commands/responses of every type and command code: every size "
                 "field set to value-k/+k/0/max, constrained leaves set to out-of-range values, the fault in the final field; "
                 "for every strict rejection with a constraint error: remaining == input suffix after (bytes of emitted fields + "
@@ -75,7 +96,7 @@ def run(ctx, replay_case):
         "samples": [c.replay("S") for c in faults[:: max(1, len(faults) // 5)]][:5],
         "correspondence": {"ops": len(faults)},
         "distribution": {"kinds": ds.kinds_distribution(faults), "rejections_by_class": dict(raised),
-                         "detected_on_last_byte": empty_rem,
+                         "detected_on_last_byte": empty_rem, "through_hex_front_end": len(fops), "hex_front_end_failures": nfront,
                          "outcomes": dict(collections.Counter(ds.outcome(b) for b in impl))},
     })
 
